@@ -10,7 +10,8 @@ MANIFEST = dict(
          "Tie: kind=multi differential runs on hot/synchronous probe sources, each notification processed to quiescence — delivered trace, drops, "
          "per-step emissions, per-source subscriptions / teardown counters / subscription contexts EQUAL on both sides; the definition's output "
          "(Spec) is evaluated next to the implementation on every hot case; free-running goroutine runs are matched against SOME interleaving (search only). "
-         "Deviations (TakeUntil/SkipUntil drop the signal's error; RaceWith leaks a synchronous winner) are proved as witnesses + _partial theorems and replayed as known findings.",
+         "TakeUntil's two atomic actions are modelled at micro-step level: every schedule is explained by an arrival order (theorem), tied by a parked-signal replay. "
+         "Deviation (TakeUntil/SkipUntil drop the signal's error, pinned by tests) is proved as witness + _partial theorems and replayed as a known finding.",
     technique="Lean 4 proof (induction over arbitrary event sequences with machine invariants; generic emit-only refinement theorem) + differential correspondence of the executable model against the implementation",
     ref='5/C05')
 
@@ -52,12 +53,8 @@ def oracle_release(case, gd):
             return 'teardown: a probe was torn down more often than it was subscribed'
     ended = (kinds(gd.get('trace')) or ['-'])[-1] in ('E', 'C') or cfield(case, 'cut') != '-'
     if ended:
-        op = cfield(case, 'op')
-        sync = ints(cfield(case, 'sync'))
         for k, (s, r) in enumerate(zip(subs, rel)):
             if s > 0 and r < s:
-                if op in RACE_OPS and k < len(sync) and sync[k] == 1:
-                    continue   # known finding class: synchronous winner of RaceWith (counted below)
                 return 'release: a source is still subscribed after the output has ended'
     return None
 
@@ -77,7 +74,7 @@ def part_a(ctx):
     R.compare(ctx, rows, proj_multi, 'C05 multi-source operators, every interleaving (trace, drops, per-step emissions, per-source subs/teardown/contexts)',
               oracle=oracle_release, nontrivial=nontrivial_multi)
     # implementation against the definition (Spec) on every hot case without external cut
-    spec_checked = spec_known = leak_known = 0
+    spec_checked = spec_known = 0
     bad = {}
     per_op = {}
     # second pass of the Lean driver over the hot, uncut cases: the definition's output (`want=spec`)
@@ -100,17 +97,12 @@ def part_a(ctx):
                     spec_known += 1
                 else:
                     bad.setdefault(op, []).append((c, g, sp))
-        # count the hits of the RaceWith class (oracle_release skipped them)
-        if op in RACE_OPS:
-            subs, rel, sync = ints(gd.get('subs')), ints(gd.get('rel')), ints(cfield(c, 'sync'))
-            ended = (kinds(gd.get('trace')) or ['-'])[-1] in ('E', 'C') or cfield(c, 'cut') != '-'
-            if ended and any(s > 0 and r < s and k < len(sync) and sync[k] == 1 for k, (s, r) in enumerate(zip(subs, rel))):
-                leak_known += 1
     for op, lst in list(bad.items())[:3]:
         c, g, sp = min(lst, key=lambda t: len(t[0]))
         ctx.violation(f'C05: implementation differs from the definition (Spec) for {op} ({len(lst)} cases) outside the known-finding classes',
                       f'# the delivered trace is not the one the definition assigns to this arrival order\n{c}\n# implementation: {g}\n# definition:     trace={sp}\n')
     conc = conc_search(ctx)
+    park = park_replay(ctx)
     return dict(
         rule='kind=multi: ops {Merge, MergeWith, MergeWithN, MergeAll(Just), MergeMapIWithContext, Race, RaceWith, Amb, TakeUntil, SkipUntil, SampleWhen, ThrottleWhen}; '
              'quick: 2 probes x legal scripts (<=2 values x {none,C,E}) x ALL interleavings; cold(sync) masks + illegal suffixes (<=1 value) x ALL interleavings; 3 probes (<=1 value) exhaustive + 6000 sampled '
@@ -119,11 +111,33 @@ def part_a(ctx):
              'compared: trace (with contexts), drops, per-step emission counts, per-probe subscriptions, teardown counters, subscription contexts; '
              'oracles on the implementation: Grammar, teardown<=subscriptions, release-after-end, trace = Spec on hot cases; non-trivial = something delivered and at least one hot notification',
         assumptions=['logical semantics: each notification is processed to quiescence before the next one is issued (sources are hot probes pushed by the harness, or cold probes that play inside Subscribe); '
-                     'the free-running goroutine runs are a search, not a proof: the micro-step (lock/atomic-level) model of DESIGN.md 5/C05 is not part of this slice',
+                     'the free-running goroutine runs are a search, not a proof; the micro-step (atomic-action) model exists for TakeUntil only (the one operator of this half whose callback is more than one atomic action before/after the destination call)',
                      'the Lean theorems are about hot sources (arbitrary arrival orders); runs with synchronous (cold) sources - Merge/Race over cold sources, sources that terminate inside Subscribe - are covered by the differential correspondence, the grammar theorem and the release oracle only',
                      'MergeAll/MergeMap* theorem: the outer source never names the same inner source twice (a probe subscribed twice is outside the probe model)'],
         extra=dict(part_a=dict(cases_per_op=per_op, spec_oracle_cases=spec_checked, spec_known_class_hits=spec_known,
-                               race_sync_winner_class_hits=leak_known, concurrent_search=conc)))
+                               concurrent_search=conc, park_replay=park)))
+
+
+PARK_CASES = [
+    'N11@1,N12@2,E1@3;N21@1', 'N11@1,N12@2,C@3;N21@1', 'N11@1,E1@2;N21@1,N22@2', 'N11@1,C@2;N21@1,C@2',
+    'N11@1,N12@2,N13@3,E1@4;N21@1,E2@2', 'N11@1,N12@2;N21@1',
+]
+
+
+def park_replay(ctx):
+    """TakeUntil with the signal parked inside its callback (kind=multipark): the delivered trace must be the trace of
+    some interleaving; the Lean side answers by theorem (C05a.takeUntil_concurrent). Deterministic detector of the
+    flag-before-completion order that fix 3e5361a removed."""
+    lines = [f'case park{i} kind=multipark op=TakeUntil sub=7 srcs={s} sync=0,0' for i, s in enumerate(PARK_CASES)]
+    rows = R.replay_cases(ctx, lines)
+    bad = [(c, g, l) for c, g, l in rows if proj_multi(R.parse_res(g)) != proj_multi(R.parse_res(l))]
+    ctx.evaluations += len(rows)
+    ctx.traces_validated += len(rows) - len(bad)
+    if bad:   # not shrunk: the scripts are the witness
+        c, g, l = bad[0]
+        ctx.violation(f'C05 TakeUntil under true concurrency: with the signal parked inside its callback while the source goes on, the delivered trace is the trace of no interleaving ({len(bad)} of {len(rows)} cases)',
+                      f'# TakeUntil, source and signal on different goroutines: the output must be the definition\'s output for SOME arrival order (C05a.takeUntil_concurrent)\n{c}\n# implementation: {g}\n# model/spec:     {l}\n# replay: ./check C05 --replay <this file>\n')
+    return dict(cases=len(rows), unexplained=len(bad))
 
 
 def multiset_perms(counts):
@@ -178,35 +192,10 @@ def conc_search(ctx):
         gd = R.parse_res(g)
         if flag(gd) or gd.get('trace') not in allowed.get(i, set()):
             missed.append((c, g, sorted(allowed.get(i, set()))[:6]))
-    # TakeUntil: the signal's Next is two atomic actions (Store(ready,1); destination.Complete). A run that no arrival
-    # order explains but a schedule of those atomic actions does (Lean: RoModel/Multi/Micro.lean) belongs to the known
-    # finding "op=TakeUntil concurrent flag window"; anything else is reported.
-    window_hits = 0
-    if missed:
-        mexp, mowner = [], []
-        for mi, (c, g, al) in enumerate(missed):
-            if cfield(c, 'op') != 'TakeUntil' or flag(R.parse_res(g)):
-                continue
-            src, sig = cfield(c, 'srcs').split(';')
-            nsrc = 0 if src == '-' else len(src.split(','))
-            nsig = 0 if sig == '-' else sum(2 if t.startswith('N') else 1 for t in sig.split(','))
-            for perm in multiset_perms([nsrc, nsig]) if nsrc + nsig <= 12 else []:
-                mexp.append(f"case {len(mexp)} kind=multimicro op=TakeUntil sub={cfield(c, 'sub')} srcs={cfield(c, 'srcs')} sched={','.join(map(str, perm)) or '-'}")
-                mowner.append(mi)
-        explained = set()
-        if mexp:
-            mp, ml = os.path.join(ctx.work, 'conc.micro'), os.path.join(ctx.work, 'conc.micro.lean')
-            open(mp, 'w').write('\n'.join(mexp) + '\n')
-            R.run_driver(mp, ml)
-            for mi, l in zip(mowner, open(ml).read().splitlines()):
-                if R.parse_res(l).get('trace') == R.parse_res(missed[mi][1]).get('trace'):
-                    explained.add(mi)
-        window_hits = len(explained)
-        missed = [m for mi, m in enumerate(missed) if mi not in explained]
     for c, g, al in missed[:2]:
         ctx.violation(f'C05 (search): a free-running run of {cfield(c, "op")} delivered a trace that no compatible interleaving explains ({len(missed)} runs)',
                       f'# goroutine-driven probes with seeded jitter; the trace is none of the model traces of the compatible interleavings\n{c}\n# implementation: {g}\n# some allowed traces: {al}\n')
-    return dict(runs=len(cases), interleavings_evaluated=len(exp), unexplained=len(missed), takeuntil_flag_window_hits=window_hits)
+    return dict(runs=len(cases), interleavings_evaluated=len(exp), unexplained=len(missed))
 
 
 # one entry per half of the family; each returns dict(rule=, assumptions=[...], extra={...})
